@@ -4,6 +4,8 @@
 (* passes ("counter.drop.0/1/2" per guard, "counter.wait.0/1/2/3/done" for the waiter).   *)
 (* RedbStore runs add "db" lines (a blocking task is using the database, logged by the      *)
 (* storage backend the harness gave to redb) and "caller_cancelled" lines.                 *)
+(* How a task ended (return / panic) is not in the log and makes no difference in the      *)
+(* design: the configuration fixes ExitKinds = {"return"} for the hidden G1 steps.           *)
 (* A log line is an assertion about where that thread stands at that instant; the steps  *)
 (* themselves (and the park / wake of the waiter) are hidden and may happen anywhere      *)
 (* between the lines.  The log is accepted iff SOME interleaving of the model's steps     *)
